@@ -4,6 +4,7 @@ package sess
 import (
 	"archive/zip"
 	"bytes"
+	"fmt"
 	"sort"
 	"time"
 
@@ -18,6 +19,7 @@ func sp(s string) *string  { return &s }
 func u32(x uint32) *uint32 { return &x }
 func u64(x uint64) *uint64 { return &x }
 func i64(x int64) *int64   { return &x }
+func i32(x int32) *int32   { return &x }
 
 func feed(ts uint64, es ...*gtfsrt.FeedEntity) []byte {
 	m := &gtfsrt.FeedMessage{Header: &gtfsrt.FeedHeader{GtfsRealtimeVersion: sp("2.0"), Timestamp: &ts}, Entity: es}
@@ -110,7 +112,8 @@ func init() {
 		return &gtfsrt.EntitySelector{Trip: td}
 	}
 	Inputs["fallback3"] = feed(1700000000, alert("a1", rt("r3", -1), rt("R1", 0), rt("r2", 1), rt("M", 1), rt("M", 0), rt("q", -1), rt("r3", 1), rt("q", 0)), // a route first without, then with a direction
-		alert("a2", rt("z", 1), rt("y", 0), rt("x", -1), &gtfsrt.EntitySelector{RouteId: sp("y")}))
+		alert("a2", rt("z", 1), rt("y", 0), rt("x", -1), &gtfsrt.EntitySelector{RouteId: sp("y")},
+			&gtfsrt.EntitySelector{RouteType: i32(109)}, &gtfsrt.EntitySelector{RouteType: i32(3), StopId: sp("S2")})) // an extended and a basic route type
 	Inputs["dates"] = feed(1710054000,
 		&gtfsrt.FeedEntity{Id: sp("1"), TripUpdate: &gtfsrt.TripUpdate{Trip: &gtfsrt.TripDescriptor{TripId: sp("t1"), StartDate: sp("20240310"), StartTime: sp("25:30:00")},
 			StopTimeUpdate: []*gtfsrt.TripUpdate_StopTimeUpdate{{StopId: sp("S1"), Arrival: &gtfsrt.TripUpdate_StopTimeEvent{Time: i64(1710054060)}}}}},
@@ -143,12 +146,24 @@ func init() {
 			StopTimeUpdate: []*gtfsrt.TripUpdate_StopTimeUpdate{{StopId: sp("S1"), StopSequence: u32(4)}}}},
 		&gtfsrt.FeedEntity{Id: sp("2"), Vehicle: &gtfsrt.VehiclePosition{Vehicle: &gtfsrt.VehicleDescriptor{Id: sp("V1")}, Trip: &gtfsrt.TripDescriptor{TripId: sp("t1"), RouteId: sp("R1")}}},
 		alert("a", &gtfsrt.EntitySelector{RouteId: sp("R1")}))
+	// more trips and vehicles than any fixed-size table or batch: 320 trip updates, 266 vehicle positions without
+	// descriptor, each serving one of the trips (used by the concurrency runs)
+	var wide []*gtfsrt.FeedEntity
+	for k := 0; k < 320; k++ {
+		id := fmt.Sprintf("%06d_W..N", 100*k)
+		wide = append(wide, &gtfsrt.FeedEntity{Id: sp("tu" + id), TripUpdate: &gtfsrt.TripUpdate{Trip: &gtfsrt.TripDescriptor{TripId: sp(id)},
+			StopTimeUpdate: []*gtfsrt.TripUpdate_StopTimeUpdate{{StopId: sp("S1")}}}})
+		if k < 266 {
+			wide = append(wide, &gtfsrt.FeedEntity{Id: sp("vp" + id), Vehicle: &gtfsrt.VehiclePosition{Trip: &gtfsrt.TripDescriptor{TripId: sp(id)}, StopId: sp("S1")}})
+		}
+	}
+	Inputs["wide"] = feed(1700000000, wide...)
 	cal := "service_id,monday,tuesday,wednesday,thursday,friday,saturday,sunday,start_date,end_date\n"
 	StaticFiles["static-a"] = map[string]string{
-		"agency.txt":         "agency_id,agency_name,agency_url,agency_timezone\nb,B,http://b,America/New_York\na,A,http://a,UTC\nc,C,http://c,Asia/Kolkata\n",
+		"agency.txt": "agency_id,agency_name,agency_url,agency_timezone\nb,B,http://b,America/New_York\na,A,http://a,UTC\nc,C,http://c,Asia/Kolkata\n",
 		// (a routes row without id whose agency resolves, stops rows without id that carry coordinates: rejected rows
 		// whose partly built entities hold pointers)
-		"routes.txt":         "route_id,agency_id,route_type\nr2,a,1\n,b,3\nr1,b,3\nr3,c,2\n",
+		"routes.txt":         "route_id,agency_id,route_type\nr2,a,1\n,b,3\nr1,b,3\nr3,c,702\n",
 		"stops.txt":          "stop_id,stop_name,parent_station,location_type,stop_lat,stop_lon\nst,Station,,1,40.5,-73.5\n,NoId,,0,40.25,-73.75\np1,P1,st,0,,\np2,P2,st,,40.1,\nx,X,,,,\n,NoId2,st,0,1.5,2.5\n",
 		"calendar.txt":       cal + "wk,1,1,1,1,1,0,0,20240101,20240630\nsa,0,0,0,0,0,1,0,20240101,20240630\nsu,0,0,0,0,0,0,1,20240101,20240630\nho,0,0,0,0,0,0,0,20240101,20240101\n",
 		"calendar_dates.txt": "service_id,date,exception_type\nxx,20240704,1\nwk,20240704,2\nyy,20240705,1\nzz,20231231,1\n",
